@@ -24,11 +24,18 @@ struct Obs {
 }
 
 fn observe(idx: usize, src: &str) -> Obs {
+    observe_files(idx, src, &[])
+}
+
+fn observe_files(idx: usize, src: &str, extra: &[(String, String)]) -> Obs {
     let base = std::env::var("CVH_SCRATCH").unwrap_or_else(|_| "/verif/.build/e2e".into());
     let dir = std::path::PathBuf::from(base).join(format!("c07_p{}_{}", std::process::id(), idx));
     let _ = std::fs::remove_dir_all(&dir);
     std::fs::create_dir_all(&dir).unwrap();
     std::fs::write(dir.join("main.capy"), src).unwrap();
+    for (name, text) in extra {
+        std::fs::write(dir.join(name), text).unwrap();
+    }
     let out = Command::new(crate::e2e::capy_bin())
         .current_dir(&dir)
         .args(["build", "main.capy", "--mod-dir", &crate::e2e::mod_dir(), "--color", "never", "-o", "prog", "--verbose-types", "local"])
@@ -53,62 +60,156 @@ fn observe(idx: usize, src: &str) -> Obs {
     obs
 }
 
-/// one rule-breaking edit of a well-typed program; returns the kind
-fn mutate(rng: &mut Rng, p: &mut core::Program) -> &'static str {
-    let main = &mut p.fns[0];
-    let pos = rng.below(main.body.len() as u64 + 1) as usize;
-    // never after the final `return`
-    let pos = pos.min(main.body.len().saturating_sub(1));
-    let (kind, text): (&'static str, String) = match rng.below(6) {
-        0 => ("type:bool-into-int", "mut_a : i32 = true;".into()),
-        1 => ("type:int-into-bool", "mut_b : bool = u8.(3);".into()),
-        2 => ("mutability:assign-immutable", "mut_c : i32 : i32.(1);\n    mut_c = i32.(2);".into()),
-        3 => ("scope:undefined-name", "core.println(mut_undefined_name);".into()),
-        4 => ("const:runtime-array-size", "mut_n := 3;\n    mut_arr : [mut_n]u8;".into()),
-        _ => ("type:wrong-arity-call", "core.println(i32.(1) + true);".into()),
+/// rule-breaking snippets (statement level, self-contained). Each was confirmed to be reported
+/// as an error by the compiler when placed alone in `main`.
+const CATALOG: &[(&str, &str)] = &[
+    ("type:bool-into-int", "m_a : i32 = true;"),
+    ("type:int-into-bool", "m_b : bool = u8.(3);"),
+    ("type:ill-typed-operand", "m_c := i32.(1) + true;"),
+    ("type:literal-out-of-range", "m_d : u8 = 300;"),
+    ("type:str-into-int", "m_e : i32 = \"str\";"),
+    ("type:array-size-mismatch", "m_f := i32.[1, 2]; m_g : [3]i32 = m_f;"),
+    ("type:optional-into-plain", "m_h : ?i32 = nil; m_i : i32 = m_h;"),
+    ("type:call-non-function", "m_j := 5; m_j();"),
+    ("type:wrong-arg-count", "m_k :: (a: i32) -> i32 { a }; m_k(1, 2);"),
+    ("type:wrong-arg-type", "m_l :: (a: i32) -> i32 { a }; m_l(true);"),
+    ("type:no-such-field", "M_S :: struct { a: i32 }; m_s := M_S.{ a = 1 }; m_s.zz;"),
+    ("type:struct-literal-wrong-field", "M_T :: struct { a: i32 }; m_t := M_T.{ b = 1 };"),
+    ("type:index-non-array", "m_m := 5; m_m[0];"),
+    ("type:deref-non-pointer", "m_n := 5; m_n^;"),
+    ("type:if-condition-non-bool", "if 5 { }"),
+    ("type:if-branches-mismatch", "m_o : i32 = if true { 1 } else { \"s\" };"),
+    ("type:lambda-return-mismatch", "m_p :: () -> i32 { true };"),
+    ("type:non-exhaustive-switch", "M_E :: enum { A, B }; m_e2 : M_E = M_E.A; switch v in m_e2 { A => {} }"),
+    ("type:unwrap-non-sum", "m_q := 5; m_r := #unwrap(m_q, i32);"),
+    ("mutability:assign-immutable", "m_u : i32 : i32.(1); m_u = i32.(2);"),
+    ("mutability:assign-param", "m_v :: (a: i32) { a = 2; };"),
+    ("mutability:write-through-immutable-pointer", "m_w := 5; m_x := ^m_w; m_x^ = 6;"),
+    ("mutability:element-of-immutable-array", "m_y :: i32.[1, 2]; m_y[0] = 5;"),
+    ("mutability:mut-ref-of-immutable", "m_z :: 5; m_z2 := ^mut m_z;"),
+    ("const:runtime-array-size", "m_n1 := 3; m_arr : [m_n1]u8;"),
+    ("const:runtime-comptime-arg", "m_n2 := 3; m_g1 :: (comptime x: i32) {}; m_g1(m_n2);"),
+    ("const:runtime-type", "m_n3 := i32; m_v3 : m_n3 = 1;"),
+    ("scope:undefined-name", "core.println(m_undefined_name);"),
+    ("scope:use-after-block", "{ m_q1 := 1; } core.println(m_q1);"),
+    ("scope:undefined-module-member", "core.zzz_no_such();"),
+    ("scope:undefined-type", "m_t1 : NoSuchType = 1;"),
+    ("scope:unknown-label", "break `nolabel;"),
+    ("syntax:missing-expression", "m_s1 := ;"),
+    ("syntax:unclosed-paren", "m_s2 := (1 + ;"),
+    ("syntax:double-operator", "m_s3 := 1 +* 2;"),
+    ("syntax:stray-token", "m_s4 := 1 2;"),
+];
+
+/// where the snippet goes. All of these are type-checked by the compiler whether or not the code
+/// is ever executed or even referenced.
+const PLACEMENTS: &[&str] = &[
+    "main", "main:if-true", "main:while-false", "main:block", "main:defer", "main:comptime", "main:uncalled-lambda",
+    "helper-fn", "unused-global-fn", "imported-file:uncalled-fn",
+];
+
+struct Mutant {
+    kind: &'static str,
+    placement: &'static str,
+    source: String,
+    extra: Vec<(String, String)>,
+}
+
+/// one rule-breaking edit of a well-typed program
+fn mutate(rng: &mut Rng, p: &core::Program) -> Mutant {
+    let (kind, snippet) = *rng.pick(CATALOG);
+    let mut placement = *rng.pick(PLACEMENTS);
+    // `break` to an unknown label inside a defer is a different error (jump out of a defer) and a
+    // syntax error swallows the wrapper's closing brace unpredictably: keep those at top level
+    if kind.starts_with("syntax") && placement != "helper-fn" && placement != "unused-global-fn" && placement != "imported-file:uncalled-fn" {
+        placement = "main";
+    }
+    if placement == "helper-fn" && p.fns.len() < 2 {
+        placement = "unused-global-fn";
+    }
+    let mut q = p.clone();
+    let mut extra = vec![];
+    let wrapped = |w: &str| -> String {
+        match w {
+            "main:if-true" => format!("if true {{ {snippet} }}"),
+            "main:while-false" => format!("while false {{ {snippet} }}"),
+            "main:block" => format!("{{ {snippet} }}"),
+            "main:defer" => format!("defer {{ {snippet} }};"),
+            "main:comptime" => format!("comptime {{ {snippet} }}"),
+            "main:uncalled-lambda" => format!("m_lam :: () {{ {snippet} }};"),
+            _ => snippet.to_string(),
+        }
     };
-    main.body.insert(pos, Stmt::Raw(text));
-    kind
+    let mut tail = String::new();
+    match placement {
+        "helper-fn" => {
+            let k = 1 + rng.below(q.fns.len() as u64 - 1) as usize;
+            q.fns[k].body.insert(0, Stmt::Raw(snippet.to_string()));
+        }
+        "unused-global-fn" => tail = format!("\nm_unused :: () {{\n    {snippet}\n}}\n"),
+        "imported-file:uncalled-fn" => {
+            tail = "\nm_other :: #import(\"m_other.capy\");\n".to_string();
+            extra.push(("m_other.capy".to_string(), format!("core :: #mod(\"core\");\n\nm_helper :: () {{\n    {snippet}\n}}\n")));
+        }
+        w => {
+            let main = &mut q.fns[0];
+            let pos = rng.below(main.body.len() as u64 + 1) as usize;
+            // never after the final `return`
+            let pos = pos.min(main.body.len().saturating_sub(1));
+            main.body.insert(pos, Stmt::Raw(wrapped(w)));
+        }
+    }
+    Mutant { kind, placement, source: format!("{}{}", q.capy(), tail), extra }
 }
 
 pub fn run(tier: &str, seed: u64, widen: bool) -> Report {
     let mut rep = Report::new(
         "C07",
         "real capy CLI run with --verbose-types local (error diagnostics, unsafe marker, exit status, object/executable written) vs the gate model CapyV.Gate.gate",
-        "seeded well-typed CapyCore programs (generator of C01, no runtime faults) and each of them with one rule-breaking mutation inserted in main: bool into int, int into bool, assignment to an immutable binding, undefined name, runtime value as array size, ill-typed operand; non-trivial = mutated program; distinct by source text",
+        "seeded well-typed CapyCore programs (generator of C01, no runtime faults) and three mutants of each: one rule-breaking snippet out of a catalog of 36 (19 type, 5 mutability, 3 const, 5 scope, 4 syntax errors) placed in main (top level / if true / while false / block / defer / comptime block / uncalled lambda), in a helper function, in an unused global function or in an uncalled function of an imported file; non-trivial = mutated program; distinct by source text",
     );
     if !crate::e2e::available() {
         rep.notes.push("capy CLI binary missing".into());
         return rep;
     }
     let mut rng = Rng::new(seed);
-    let n = if widen { 600 } else if tier == "thorough" { 300 } else { 40 };
+    let n = if widen { 400 } else if tier == "thorough" { 200 } else { 30 };
     let cfg = GenCfg { faults: false, ..GenCfg::default() };
     let mut cases: Vec<(String, &'static str)> = vec![];
+    let mut placements: Vec<&'static str> = vec![];
+    let mut extras: Vec<Vec<(String, String)>> = vec![];
     for _ in 0..n {
         let p = core::gen_program(&mut rng, &cfg);
         if p.fns[0].ret == Ty::Void && p.fns[0].body.is_empty() {
             continue;
         }
         cases.push((p.capy(), "valid"));
-        let mut q = p.clone();
-        let kind = mutate(&mut rng, &mut q);
-        cases.push((q.capy(), kind));
+        placements.push("-");
+        extras.push(vec![]);
+        // several mutants per base program: the catalog x placement space is what matters here
+        for _ in 0..3 {
+            let m = mutate(&mut rng, &p);
+            cases.push((m.source, m.kind));
+            placements.push(m.placement);
+            extras.push(m.extra);
+        }
     }
     // run the CLI on 16 workers
     let jobs = 16;
     let cases_arc = std::sync::Arc::new(cases.clone());
+    let extras_arc = std::sync::Arc::new(extras.clone());
     let next = std::sync::Arc::new(std::sync::atomic::AtomicUsize::new(0));
     let results = std::sync::Arc::new(std::sync::Mutex::new(vec![None; cases.len()]));
     let mut hs = vec![];
     for _ in 0..jobs {
         let (c, nx, rs) = (cases_arc.clone(), next.clone(), results.clone());
+        let ex = extras_arc.clone();
         hs.push(std::thread::spawn(move || loop {
             let i = nx.fetch_add(1, std::sync::atomic::Ordering::SeqCst);
             if i >= c.len() {
                 break;
             }
-            let o = observe(i, &c[i].0);
+            let o = observe_files(i, &c[i].0, &ex[i]);
             rs.lock().unwrap()[i] = Some(o);
         }));
     }
@@ -131,14 +232,17 @@ pub fn run(tier: &str, seed: u64, widen: bool) -> Report {
         })
         .collect();
     let answers = lean::ask(&reqs);
-    for (((src, kind), o), model) in cases.iter().zip(results.iter()).zip(answers.iter()) {
+    for ((((src, kind), o), model), (placement, extra)) in cases.iter().zip(results.iter()).zip(answers.iter()).zip(placements.iter().zip(extras.iter())) {
         rep.case(if *kind != "valid" { Some(src.clone()) } else { None });
         rep.hit(&format!("kind:{kind}"));
+        if *kind != "valid" {
+            rep.hit(&format!("placement:{placement}"));
+        }
         let got = format!(
             "{}",
             if o.panicked { "assertPanic" } else if o.exe { "built" } else if o.object { "objectOnlyLinkFailed" } else if o.errors { "rejected" } else if o.status == Some(0) { "codegenErrorExit0" } else { "entryPointError" }
         );
-        let input = json!({"source": src, "mutation": kind});
+        let input = json!({"source": src, "mutation": kind, "placement": placement, "extra_files": extra});
         if rep.evaluations % 17 == 1 {
             rep.sample(json!({"mutation": kind, "outcome": got, "errors": o.errors, "unsafe_marker": o.unsafe_marker, "status": o.status}));
         }
@@ -161,7 +265,7 @@ pub fn run(tier: &str, seed: u64, widen: bool) -> Report {
             if o.errors && (o.object || o.exe) {
                 rep.oracle_fail("built-despite-errors", input.clone(), json!(format!("{o:?}")), json!("nothing generated"), "errors were reported and yet an object was written");
             }
-            if o.errors && !o.unsafe_marker && !kind.starts_with("scope") {
+            if o.errors && !o.unsafe_marker && !kind.starts_with("scope") && !kind.starts_with("syntax") {
                 // an error inside an expression must flag the code containing it
                 rep.oracle_fail("error-not-flagged-unsafe", input.clone(), json!(format!("{o:?}")), json!("flagged unsafe"), "an error was reported for an expression but nothing was flagged unsafe to compile");
             }
@@ -175,6 +279,10 @@ pub fn run(tier: &str, seed: u64, widen: bool) -> Report {
 }
 
 pub fn replay(input: &serde_json::Value) -> String {
-    let o = observe(0, input["source"].as_str().unwrap_or(""));
+    let extra: Vec<(String, String)> = input["extra_files"]
+        .as_array()
+        .map(|a| a.iter().filter_map(|p| Some((p[0].as_str()?.to_string(), p[1].as_str()?.to_string()))).collect())
+        .unwrap_or_default();
+    let o = observe_files(0, input["source"].as_str().unwrap_or(""), &extra);
     format!("implementation: {o:?}")
 }
